@@ -11,6 +11,7 @@ Only theorems + non-vacuity examples here; proofs of the lemmas are in Lemmas/Pa
 import SkVerif.Model.Params
 import SkVerif.Spec.Params
 import SkVerif.Lemmas.Params
+import SkVerif.Lemmas.ParamsTree
 namespace SkVerif.C04
 open SkVerif SkVerif.Params
 
@@ -153,5 +154,202 @@ example : (summarize Ex.tbl 20 21 [22] 1).ctorOK = true ∧ (summarize Ex.tbl 20
 example : (summarize Ex.tbl 20 21 [22] 2).ctor = [.unknown, .missing] ∧ (summarize Ex.tbl 20 21 [22] 2).mayRaise = true ∧
     (summarize Ex.tbl 20 21 [22] 2).freshUnfitted = false ∧ (summarize Ex.tbl 20 21 [22] 2).guards = [.unguarded] ∧
     (summarize Ex.tbl 20 21 [22] 2).fitWrites = [10] := by decide
+
+/-! ## Part B : parameter trees (get_params / set_params / clone / _check_names / fitted flag)
+
+`Val.est id cls impl fitted ps` : an estimator with parameters `ps`; `impl = .plain` is sklearn's
+`BaseEstimator` protocol, `impl = .viaMeta attr store` sktime's `_HeterogenousMetaEstimator` protocol with
+the named components held in parameter `store`.  Keys `a__b__c` are paths `[a,b,c]`.  Hypotheses
+`ps.keys.Nodup` hold for every real estimator (the names of a signature are distinct). -/
+
+/-- **get_params returns what is stored**: the shallow result has exactly one entry per parameter, holding
+the stored value (with `wf_getParams_eq_args`: the value that was passed). -/
+theorem getParams_shallow_returns_params (i : Nat) (c : N) (impl : Impl N) (f : Bool) (ps : PList N) (k : N)
+    (hk : ps.keys.Nodup) :
+    dictGet [k] (getVal false (.est i c impl f ps)) = ps.lookup k := by
+  rw [Tree.getVal_shallow, Tree.dictGet_getPList_shallow, Tree.lookupLast_eq_lookup k ps hk]
+
+/-- ... and the deep result still has every parameter under its own name -/
+theorem getParams_deep_has_params (i : Nat) (c : N) (f : Bool) (ps : PList N) (k : N) (hk : ps.keys.Nodup) :
+    dictGet [k] (getVal true (.est i c .plain f ps)) = ps.lookup k := by
+  simpa [getVal] using Tree.dictGet_getPList_deep_bare k ps hk
+
+/-- **nested read** `a__q` of a composite = `q` of the component stored in parameter `a` -/
+theorem nested_get_reads_component (i : Nat) (c : N) (f : Bool) (ps : PList N) (a : N) (q : Path N)
+    (ci : Nat) (cc : N) (cimpl : Impl N) (cf : Bool) (cps : PList N)
+    (hk : ps.keys.Nodup) (hq : q ≠ []) (hl : ps.lookup a = some (.est ci cc cimpl cf cps)) :
+    dictGet (a :: q) (getVal true (.est i c .plain f ps)) = dictGet q (getVal true (.est ci cc cimpl cf cps)) :=
+  Tree.nested_get_param i c f ps a q ci cc cimpl cf cps hk hq hl
+
+/-- **nested read through a named component** of a pipeline / ensemble / multiplexer / column ensemble -/
+theorem nested_get_reads_named_component (i : Nat) (c : N) (f : Bool) (ps : PList N) (attr store : N)
+    (items : PList N) (n : N) (q : Path N) (ci : Nat) (cc : N) (cimpl : Impl N) (cf : Bool) (cps : PList N)
+    (hk : ps.keys.Nodup) (hi : items.keys.Nodup) (hq : q ≠ []) (hn : n ∉ ps.keys)
+    (hs : ps.lookup store = some (.named items)) (hl : items.lookup n = some (.est ci cc cimpl cf cps)) :
+    dictGet (n :: q) (getVal true (.est i c (.viaMeta attr store) f ps))
+      = dictGet q (getVal true (.est ci cc cimpl cf cps)) :=
+  Tree.nested_get_component i c f ps attr store items n q ci cc cimpl cf cps hk hi hq hn hs hl
+
+/-- a whole component is readable under its name -/
+theorem component_readable_by_name (i : Nat) (c : N) (f : Bool) (ps : PList N) (attr store : N) (items : PList N)
+    (n : N) (v : Val N) (hk : ps.keys.Nodup) (hi : items.keys.Nodup) (hn : n ∉ ps.keys)
+    (hs : ps.lookup store = some (.named items)) (hl : items.lookup n = some v) :
+    dictGet [n] (getVal true (.est i c (.viaMeta attr store) f ps)) = some v :=
+  Tree.get_component_by_name i c f ps attr store items n v hk hi hn hs hl
+
+/-- **set_params(\*\*get_params(deep=False)) = identity** (plain estimators, any fuel ≥ 1) -/
+theorem wf_setParams_getParams_id (fuel i : Nat) (c : N) (f : Bool) (ps : PList N) (hk : ps.keys.Nodup) :
+    setVal (fuel + 1) (.est i c .plain f ps) (getVal false (.est i c .plain f ps)) = .ok (.est i c .plain f ps) :=
+  Tree.set_get_roundtrip_plain fuel i c f ps hk
+
+/-- the same for heterogeneous meta-estimators whose component names clash with no parameter name -/
+theorem wf_setParams_getParams_id_meta (fuel i : Nat) (c : N) (f : Bool) (ps : PList N) (attr : N) (items : PList N)
+    (hk : ps.keys.Nodup) (hs : ps.lookup attr = some (.named items)) (hclash : ∀ n ∈ items.keys, n ∉ ps.keys) :
+    setVal (fuel + 1) (.est i c (.viaMeta attr attr) f ps) (getVal false (.est i c (.viaMeta attr attr) f ps))
+      = .ok (.est i c (.viaMeta attr attr) f ps) :=
+  Tree.set_get_roundtrip_meta fuel i c f ps attr items hk hs hclash
+
+/-- **a bare key writes that parameter and only it** -/
+theorem setParams_bare_writes_only_that_param (fuel i : Nat) (c : N) (f : Bool) (ps : PList N) (k : N) (v : Val N)
+    (hk : ps.keys.Nodup) (hin : k ∈ ps.keys) :
+    setVal (fuel + 1) (.est i c .plain f ps) [([k], v)] = .ok (.est i c .plain f (ps.replace k v)) ∧
+    (ps.replace k v).lookup k = some v ∧ (∀ k', k' ≠ k → (ps.replace k v).lookup k' = ps.lookup k') ∧
+    (ps.replace k v).keys = ps.keys :=
+  ⟨Tree.set_bare_plain fuel i c f ps k v hk hin, Tree.lookup_replace_same ps k v hin,
+   fun k' h => Tree.lookup_replace_ne ps k k' v h, Tree.keys_replace ps k v⟩
+
+/-- **unknown parameter names are rejected** (ValueError), also as a prefix `unknown__x` -/
+theorem setParams_unknown_rejected (fuel i : Nat) (c : N) (f : Bool) (ps : PList N) (k : N) (rest : Path N) (v : Val N)
+    (hnot : k ∉ ps.keys) :
+    setVal (fuel + 1) (.est i c .plain f ps) [(k :: rest, v)] = .error .value :=
+  Tree.set_unknown_rejected_plain fuel i c f ps k rest v hnot
+
+theorem setParams_unknown_rejected_meta (fuel i : Nat) (c : N) (f : Bool) (ps : PList N) (attr store : N)
+    (k : N) (rest : Path N) (v : Val N)
+    (hnot : k ∉ ps.keys) (hattr : k ≠ attr) (hcomp : k ∉ componentNames store ps) :
+    setVal (fuel + 1) (.est i c (.viaMeta attr store) f ps) [(k :: rest, v)] = .error .value :=
+  Tree.set_unknown_rejected_meta fuel i c f ps attr store k rest v hnot hattr hcomp
+
+/-- **nested write** `a__q = v`: the component stored in parameter `a` receives `q = v`, the composite
+changes in parameter `a` only (`PList.replace`), an error inside the component is the error of the call -/
+theorem nested_set_writes_component (fuel i : Nat) (c : N) (f : Bool) (ps : PList N) (a : N) (q : Path N) (v : Val N)
+    (comp : Val N) (hk : ps.keys.Nodup) (hq : q ≠ []) (hl : ps.lookup a = some comp) :
+    setVal (fuel + 1) (.est i c .plain f ps) [(a :: q, v)]
+      = (setVal fuel comp [(q, v)]).map (fun comp' => .est i c .plain f (ps.replace a comp')) :=
+  Tree.nested_set_param fuel i c f ps a q v comp hk hq hl
+
+/-- **nested write through a named component**: only that component of the list changes -/
+theorem nested_set_writes_named_component (fuel i : Nat) (c : N) (f : Bool) (ps : PList N) (attr store : N)
+    (items : PList N) (n : N) (q : Path N) (v : Val N) (comp : Val N)
+    (hk : ps.keys.Nodup) (hi : items.keys.Nodup) (hq : q ≠ []) (hn : n ∉ ps.keys) (hattr : n ≠ attr)
+    (hs : ps.lookup store = some (.named items)) (hl : items.lookup n = some comp) :
+    setVal (fuel + 1) (.est i c (.viaMeta attr store) f ps) [(n :: q, v)]
+      = (setVal fuel comp [(q, v)]).map
+          (fun comp' => .est i c (.viaMeta attr store) f (ps.replace store (.named (items.replace n comp')))) :=
+  Tree.nested_set_component fuel i c f ps attr store items n q v comp hk hi hq hn hattr hs hl
+
+/-- **whole components can be replaced by name** -/
+theorem replace_component_by_name (fuel i : Nat) (c : N) (f : Bool) (ps : PList N) (attr store : N) (items : PList N)
+    (n : N) (new : Val N) (hk : ps.keys.Nodup) (hattr : n ≠ attr)
+    (hs : ps.lookup store = some (.named items)) (hin : n ∈ items.keys) :
+    setVal (fuel + 1) (.est i c (.viaMeta attr store) f ps) [([n], new)]
+      = .ok (.est i c (.viaMeta attr store) f (ps.replace store (.named (items.replace n new)))) :=
+  Tree.replace_component fuel i c f ps attr store items n new hk hattr hs hin
+
+/-- **order of sktime `_set_params`** (1 → 2): the whole list is installed first, then the component of the
+NEW list is replaced by name -/
+theorem setParams_order_list_then_component (fuel i : Nat) (c : N) (f : Bool) (ps : PList N) (attr : N)
+    (items' : PList N) (n : N) (new : Val N)
+    (hk : ps.keys.Nodup) (hin : attr ∈ ps.keys) (hn : n ∈ items'.keys) (hne : n ≠ attr) :
+    setVal (fuel + 1) (.est i c (.viaMeta attr attr) f ps) [([attr], .named items'), ([n], new)]
+      = .ok (.est i c (.viaMeta attr attr) f (ps.replace attr (.named (items'.replace n new)))) :=
+  Tree.set_order_list_then_component fuel i c f ps attr items' n new hk hin hn hne
+
+/-- **order of sklearn `set_params`**: a bare key and a nested key with the same prefix in one call: the
+nested key is applied to the NEW value -/
+theorem setParams_order_bare_then_nested (fuel i : Nat) (c : N) (f : Bool) (ps : PList N) (a : N) (new : Val N)
+    (q : Path N) (v : Val N) (hk : ps.keys.Nodup) (hin : a ∈ ps.keys) (hq : q ≠ []) :
+    setVal (fuel + 1) (.est i c .plain f ps) [([a], new), (a :: q, v)]
+      = (setVal fuel new [(q, v)]).map (fun new' => .est i c .plain f (ps.replace a new')) :=
+  Tree.set_bare_then_nested_same_prefix fuel i c f ps a new q v hk hin hq
+
+/-- **clone reproduces an estimator with equal parameters** (the trees agree once fitted flags are erased) -/
+theorem wf_clone_params_eq (v : Val N) : eraseFitted (cloneVal v) = eraseFitted v := Tree.clone_params_eq v
+
+/-- **... and nothing in a clone is fitted** -/
+theorem clone_unfitted (v : Val N) : anyFitted (cloneVal v) = false := Tree.clone_unfitted v
+
+/-- a clone answers `get_params` with the same keys -/
+theorem clone_same_keys (v : Val N) (deep : Bool) :
+    (getVal deep (cloneVal v)).map (·.1) = (getVal deep v).map (·.1) := Tree.clone_getParams_keys v deep
+
+/-- **`_check_names`** rejects duplicate names, names that are constructor arguments, names containing `__` … -/
+theorem checkNames_rejects (dunder : N → Bool) (names params : List N) :
+    (¬ names.Nodup → checkNames dunder names params = .error .value) ∧
+    (∀ n, n ∈ names → n ∈ params → checkNames dunder names params = .error .value) ∧
+    (∀ n, n ∈ names → dunder n = true → checkNames dunder names params = .error .value) :=
+  ⟨Tree.checkNames_rejects_duplicates dunder names params,
+   fun n h1 h2 => Tree.checkNames_rejects_param_clash dunder names params n h1 h2,
+   fun n h1 h2 => Tree.checkNames_rejects_dunder dunder names params n h1 h2⟩
+
+/-- … and accepts everything else -/
+theorem checkNames_accepts (dunder : N → Bool) (names params : List N)
+    (h1 : names.Nodup) (h2 : ∀ n ∈ names, n ∉ params) (h3 : ∀ n ∈ names, dunder n = false) :
+    checkNames dunder names params = .ok () := Tree.checkNames_accepts dunder names params h1 h2 h3
+
+/-- **fit returns the estimator itself, sets is_fitted, leaves every parameter unchanged** (tree model; the
+frame condition for real classes is `fit_frame` + the regenerated FitWrites table) -/
+theorem fit_returns_self_sets_fitted (i : Nat) (c : N) (impl : Impl N) (f : Bool) (ps : PList N) :
+    fitVal (.est i c impl f ps) = .est i c impl true ps ∧
+    (fitVal (.est i c impl f ps)).isFitted = true ∧
+    getVal true (fitVal (.est i c impl f ps)) = getVal true (.est i c impl f ps) := by
+  refine ⟨rfl, rfl, ?_⟩
+  cases impl <;> simp [fitVal, getVal]
+
+omit [DecidableEq N] in
+/-- **a fresh or cloned estimator raises NotFittedError from a guarded method, also a clone of a fitted one** -/
+theorem apply_unfitted_raises (i : Nat) (c : N) (impl : Impl N) (f : Bool) (ps : PList N) :
+    applyGuarded (.est i c impl false ps) = .error .notFitted ∧
+    applyGuarded (cloneVal (fitVal (.est i c impl f ps))) = .error .notFitted ∧
+    applyGuarded (fitVal (.est i c impl f ps)) = .ok () := by
+  refine ⟨rfl, ?_, rfl⟩
+  simp [fitVal, cloneVal, applyGuarded]
+
+/-! ### non-vacuity: a pipeline `steps=[("t", Detrender(forecaster=Naive(sp=1))), ("f", Naive(sp=2))]`
+(names: 1 sp, 2 forecaster, 3 steps, 4 "t", 5 "f", 9 unknown; classes 10 Naive, 11 Detrender, 12 Pipe) -/
+namespace ExB
+def naive (id sp : Nat) : Val Nat := .est id 10 .plain false (.cons 1 (.atom sp) .nil)
+def detr : Val Nat := .est 2 11 .plain true (.cons 2 (naive 3 1) .nil)
+def pipe : Val Nat :=
+  .est 1 12 (.viaMeta 3 3) false (.cons 3 (.named (.cons 4 detr (.cons 5 (naive 4 2) .nil))) .nil)
+def atomOf : Option (Val Nat) → Option Nat
+  | some (.atom i) => some i
+  | _ => none
+def errOf : Except Err (Val Nat) → Option Err
+  | .error e => some e
+  | .ok _ => none
+end ExB
+
+section
+open ExB
+set_option linter.unusedSimpArgs false
+local macro "evalTree" : tactic =>
+  `(tactic| simp [pipe, detr, naive, atomOf, errOf, getVal, getPList, nestedOf, compsOfPList, compsOfVal, itemsTop,
+      itemsNested, pre, dictGet, setVal, dedupKw, metaPre, metaStep1, metaStep2, componentNames, replaceComponent,
+      invalidKey, setBare, groupOf, isBare, isCompKey, PList.lookup, PList.lookupLast, PList.keys, PList.replace,
+      PList.mapM, PList.mapLastM, cloneVal, clonePList, anyFitted, anyFittedP, checkNames, hasDup])
+
+example : (getVal true pipe).map (·.1) = [[3], [4], [5], [4, 2, 1], [4, 2], [5, 1]] := by evalTree
+example : atomOf (dictGet [4, 2, 1] (getVal true pipe)) = some 1 := by evalTree
+example : (match setVal 9 pipe [([4, 2, 1], .atom 7)] with
+    | .ok v => atomOf (dictGet [4, 2, 1] (getVal true v)) = some 7 ∧ atomOf (dictGet [5, 1] (getVal true v)) = some 2
+    | .error _ => False) := by evalTree
+example : errOf (setVal 9 pipe [([9], .atom 7)]) = some .value := by evalTree
+example : errOf (setVal 9 pipe [([3, 9], .atom 7)]) = some .attr := by evalTree
+example : anyFitted pipe = true ∧ anyFitted (cloneVal pipe) = false := by evalTree
+example : checkNames (fun n => n == 99) [4, 5] [3] = .ok () ∧ checkNames (fun n => n == 99) [4, 4] [3] = .error .value ∧
+    checkNames (fun n => n == 99) [3] [3] = .error .value ∧ checkNames (fun n => n == 99) [99] [3] = .error .value := by
+  evalTree
+end
 
 end SkVerif.C04
